@@ -169,7 +169,7 @@ def run_selection(ctx, T):
 # ------------------------------------------------------------------------------------------------------------
 # (b) cost
 # ------------------------------------------------------------------------------------------------------------
-def measure(fn):
+def measure(fn, seconds=25.0):
     import gc
     gc.collect()
     tracemalloc.start()
@@ -179,7 +179,10 @@ def measure(fn):
     err = None
     out = None
     try:
-        out = fn()
+        with TC.time_limit(seconds):
+            out = fn()
+    except TC.Timeout:
+        err = f"Timeout: not finished after {seconds} s"
     except Exception as e:  # noqa
         err = f"{type(e).__name__}: {str(e)[:200]}"
     dt = time.time() - t
@@ -389,19 +392,42 @@ def run_cost(ctx, T, flags):
         return mism + [dict(oracle_fail=False, what="cost shard (linalg) did not compile", log=log[-1500:])], len(cases), {}, samples
     nlin = 0
     worst = 0.0
+    generic_selected = []
     for name, A, call, want, k in lin:
         n = A.shape[0]
         m = lmodel[name]
-        out, peak, dt, err = measure(call)
+        with TC.tracing() as tlog:
+            out, peak, dt, err = measure(call)
         nlin += 1
+        # the rule that finally ran, observed through plum's resolver on the live table (first dispatch of the call
+        # and the forwarding dispatches that receive the same operator object)
+        fn0 = name.split("(")[0]
+        fn0 = T["U"].WRAPPERS.get(fn0, fn0)
+        ch = observed_chain(T, fn0, tlog)
+        sel = None
+        if ch and ch[-1][1] is not None and ch[-1][1] >= 2:
+            g = ch[-1][0]
+            r = T["funcs"][g]["rules"][ch[-1][1] - 2]
+            gpos = [i for i, c in enumerate(T["U"].LATTICE[g][0]) if isinstance(c, str) and c.startswith("OPS")][0]
+            hint = T["type_names"][r["types"][gpos]]
+            sel = f"{g}({', '.join(T['type_names'][t] for t in r['types'])})"
+            if hint in ("LinearOperator", "Any") and r["cond"] is None:
+                generic_selected.append((name, sel))
         pe = peak / 8.0
         bound = DENSE_TEMPS * m["storage"] + m["total"] + 2 * n * k
         worst = max(worst, pe / bound)
-        rec = dict(case=name, n=n, peak_elems=round(pe), model_bound=bound, storage=m["storage"], seconds=round(dt, 3))
+        rec = dict(case=name, n=n, peak_elems=round(pe), model_bound=bound, storage=m["storage"], seconds=round(dt, 3), selected_rule=sel)
+        if len(samples) < 9 and nlin % 11 == 0:
+            samples.append(rec)
+        if sel is not None and generic_selected and generic_selected[-1][0] == name:
+            mism.append(dict(oracle_fail=bool(pe * 50 > n * n), what="a generic (LinearOperator-typed, unconditional) rule finally ran for a large structured operator that the statement says has a structural rule", **rec))
         if err:
             # errors raised by the selected rule are outside this property unless it is a lookup failure
             if "LookupError" in err:
                 mism.append(dict(oracle_fail=True, what=f"entry point raised {err}", **rec))
+            elif err.startswith("Timeout") or err.startswith("MemoryError"):
+                dense = pe * 50 > n * n
+                mism.append(dict(oracle_fail=bool(dense), what=f"entry point on a structured operator: {err}; peak so far {round(pe)} elements" + (" -- of the order of the full matrix" if dense else ""), **rec))
             else:
                 rec["error"] = err
                 mism.append(dict(oracle_fail=False, what=f"entry point failed on a structured operator the model accepts: {err}", **rec))
@@ -474,7 +500,11 @@ def probe_flags(T):
 
 
 def run(ctx):
-    T = TR.build_table(0)
+    try:
+        T = TR.build_table(0)
+    except TR.FailClosed as e:
+        return dict(evaluations=0, distinct_nontrivial=0, rule="", samples=[], findings=[],
+                    mismatches=[dict(oracle_fail=False, what=f"translator fails closed: {e}")])
     mismatches, extra = [], {}
     flags, findings = probe_flags(T)
     # the Coq exception list and the probes must tell the same story: a flag probed absent means the exception is unused
